@@ -11,3 +11,4 @@ def run(ck):
     region.r6_2b_extents_after_drop(ck, P)
     region.r6_3_coalesce(ck, P)
     region.r6_4_normalisation(ck, P)
+    region.r6_5_touching_merges(ck, P)
